@@ -187,6 +187,23 @@ def build_harness(per_profile=False):
     return True, ''
 
 
+NOHOOK_TARGET = os.path.join(HARN, 'target-nohook')
+_NOHOOKS = [False]
+
+
+def build_harness_nohooks():
+    """Build both profiles without `--cfg crypto_bigint_verif` (RUSTFLAGS set but empty overrides harness/.cargo/config.toml)."""
+    env = dict(ENV, RUSTFLAGS='')
+    with Lock('cargo'):
+        for name, flags, _ in PROFILES:
+            p = subprocess.run(['cargo', 'build', '--offline', '--target-dir', NOHOOK_TARGET] + flags, cwd=HARN, env=env,
+                               stdout=subprocess.PIPE, stderr=subprocess.STDOUT, text=True)
+            if p.returncode != 0:
+                return False
+    _NOHOOKS[0] = True
+    return True
+
+
 def const_eval_failure(out):
     """The harness evaluates crate functions in const items (const-vs-runtime routes of C15, impl_modulus! constants).
     If the CRATE's code panics there (E0080 with a frame inside /repo's src) the build error is a failing input of the
@@ -261,7 +278,7 @@ def run_parallel(cmd, lines, jobs):
 
 
 def impl_cmd(profile_dir):
-    return [os.path.join(HARN, 'target', profile_dir, 'cbh')]
+    return [os.path.join(NOHOOK_TARGET if _NOHOOKS[0] else os.path.join(HARN, 'target'), profile_dir, 'cbh')]
 
 
 def model_cmd():
@@ -323,6 +340,7 @@ def main():
     log('building harness (2 profiles) against ' + REPO)
     built = build_harness(per_profile=True)
     const_fail = None
+    nohooks = False
     if not all(ok for ok, _ in built.values()):
         bad = {n: o for n, (ok, o) in built.items() if not ok}
         cfs = {n: const_eval_failure(o) for n, o in bad.items()}
@@ -337,14 +355,22 @@ def main():
                                **cfail, replay_cmd='cd harness && cargo build --offline --release && cargo build --offline --profile dbgchk'), open(rpath, 'w'), indent=1)
                 print(f'VIOLATION property={pid} replay={rpath}')
                 sys.exit(1)
+            # last resort: the crate may no longer compile WITH the hook forwarders (`--cfg crypto_bigint_verif`; a refactor of an
+            # internal signature breaks src/verif_hooks.rs) although it compiles as its users build it: build the harness without
+            # the cfg (hook operations answer `hook-unavailable` and are dropped), the public operations still decide the property
             n, o = next(iter(bad.items()))
-            print(f'ERROR harness does not build against the current tree\n[{n}]\n{o[-6000:]}')
-            sys.exit(2)
-        # only the dbgchk profile fails, and it fails because a debug assertion / overflow check of the crate fires during
-        # const evaluation: run the lines on the release build alone; the const-evaluation diagnostic is the fallback replay
-        const_fail = next(iter(cfs.values()))
-        const_fail['profile'] = next(iter(cfs))
-        log(f"profile {const_fail['profile']}: const evaluation of crate code panics ({const_fail['message']}); running the release profile only")
+            if cfail is None and build_harness_nohooks():
+                nohooks = True
+                log('harness does not build with the hook forwarders; running WITHOUT hooks (public operations only):\n' + o[-1500:])
+            else:
+                print(f'ERROR harness does not build against the current tree\n[{n}]\n{o[-6000:]}')
+                sys.exit(2)
+        if not nohooks:
+            # only the dbgchk profile fails, and it fails because a debug assertion / overflow check of the crate fires during
+            # const evaluation: run the lines on the release build alone; the const-evaluation diagnostic is the fallback replay
+            const_fail = next(iter(cfs.values()))
+            const_fail['profile'] = next(iter(cfs))
+            log(f"profile {const_fail['profile']}: const evaluation of crate code panics ({const_fail['message']}); running the release profile only")
 
     # ---- operations
     if args.replay:
@@ -362,6 +388,10 @@ def main():
         boost = 10 if not po['build_ok'] or po['failed'] else 1
         for _ in range(boost):
             lines += list(gmod.gen(tier, rng))
+    hooks_lost = False
+    if nohooks:
+        hooks_lost = any('.hook.' in l.split()[0] for l in lines)   # does this property's correspondence use hooks at all?
+        lines = [l for l in lines if '.hook.' not in l.split()[0]]
     log(f'{len(lines)} operation lines')
 
     def execute(ls):
@@ -439,7 +469,7 @@ def main():
     # the property yet: search the PUBLIC operations with fresh generator streams (10x the budget) for a concrete failing
     # input before falling back to `no-failing-input-found`
     searched_extra = 0
-    if not args.replay and not viol and (hookbreak or po['failed'] or not po['build_ok']) and os.environ.get('VERIF_NO_BOOST') is None:
+    if not args.replay and not viol and (hookbreak or hooks_lost or po['failed'] or not po['build_ok']) and os.environ.get('VERIF_NO_BOOST') is None:
         for k in range(1, 10):
             extra = [l for l in gmod.gen(tier, random.Random(seed * 1000003 + k)) if '.hook.' not in l.split()[0]]
             if not extra:
@@ -480,11 +510,13 @@ def main():
                        replay_cmd=f'./check {pid} --replay {rpath}'), open(rpath, 'w'), indent=1)
         msgs.append(f'VIOLATION property={pid} replay={rpath}')
         rc = 1
-    elif hookbreak or po['failed'] or not po['build_ok'] or not model_bin_ok:
+    elif hookbreak or hooks_lost or po['failed'] or not po['build_ok'] or not model_bin_ok:
         rpath = os.path.join(VERIF, 'replays', f'{pid}-{tier}-{seed}-unproved.json')
         what = []
         if po['failed'] or not po['build_ok']:
             what.append('proof obligations no longer check: ' + ', '.join(po['failed'] or ['CB.Props.' + pid]))
+        if hooks_lost:
+            what.append('the hook forwarders of /repo (cfg crypto_bigint_verif, src/verif_hooks.rs) no longer compile: the correspondence on the crate-internal functions of this property cannot be run; the public operations were run without them')
         if hookbreak:
             what.append('correspondence broken on internal function(s): ' + ', '.join(sorted({h['line'].split()[0] for h in hookbreak})))
         json.dump(dict(property=pid, violation=True, kind='no-failing-input-found', what=what,
@@ -525,6 +557,7 @@ def main():
             samples=samples, ops_histogram=ops_hist, impl_output_classes=out_hist,
             traces_validated_against_impl=len(lines), profile_differences=profdiff,
             known_findings_hit={k: len(v) for k, v in known_hits.items()},
+            hooks_unavailable=nohooks,
             hook_disagreements=len(hookbreak)),
         assumptions=getattr(gmod, 'ASSUMPTIONS', []) + ['only target_pointer_width=64 is modelled'],
         wall_s=round(time.time() - t0, 2), violations=len(viol))
